@@ -38,14 +38,20 @@ def malformed_listing(rng):
         line = good[:rng.randint(0, len(good) - 1)]
     elif r < 0.75:
         pos = rng.randrange(30)
-        ch = rng.choice([" ", "g", "+", "|", ":", "é", "\x00", "x", "-", "❤"])
+        ch = rng.choice([" ", "g", "+", "|", ":", "é", "\x00", "x", "-", "❤", "\t", "\t", "\r", "\x0c", "\x0b", "\u00a0"])
         line = good[:pos] + ch + good[pos + 1:]
     elif r < 0.85:
         line = good[:7] + "0" * rng.choice([1, 3, 19]) + " " * 20
         line = line[:27] + " | x"
-    else:
+    elif r < 0.93:
         pos = rng.randrange(30)
         line = good[:pos] + rng.choice(["é", "+"]) + good[pos:]
+    else:
+        # white space other than blanks inside the data field, at an even and at an odd digit offset
+        k_ = rng.choice([0, 2, 4, 3, 8, 19])
+        field = ("30f40001000000000000" + " " * 20)[:20]
+        field = field[:k_] + rng.choice(["\t", "\r", "\x0c"]) + field[k_ + 1:]
+        line = "0x01a: " + field + " | x"
     before = ["0x000: 00                   | ok"] if rng.random() < 0.5 else []
     return "\n".join(before + [line]) + ("\n" if rng.random() < 0.5 else "")
 
